@@ -318,8 +318,10 @@ func (r *Rtmp2RtspRemuxer) getAudioPacker() *rtprtcp.RtpPacker {
 			pp := rtprtcp.NewRtpPackerPayloadPcm()
 			r.audioPacker = rtprtcp.NewRtpPacker(pp, r.audioSampleRate, r.audioSsrc)
 		case base.AvPacketPtOpus:
+			// the sdp always announces opus/48000 (rfc7587 4.1: the rtp clock of opus is 48000 whatever
+			// the sampling rate the metadata names), so the packer must run at that rate as well
 			pp := rtprtcp.NewRtpPackerPayloadOpus()
-			r.audioPacker = rtprtcp.NewRtpPacker(pp, r.audioSampleRate, r.audioSsrc)
+			r.audioPacker = rtprtcp.NewRtpPacker(pp, opusDefaultSampleRate, r.audioSsrc)
 		case base.AvPacketPtAac:
 			if r.asc == nil {
 				return nil
